@@ -124,7 +124,7 @@ def run(ctx):
   cats = {}
   for i, (c, (cat, behs)) in enumerate(exported):
     cats[c] = cat
-    for k in range(1 if quick or len(behs) > 50000 else 3):
+    for k in range(1 if quick or len(behs) > 50000 else 2):
       style = (ctx.seed + 5 * i + 7 * k) % 24
       st = core.replay(ctx, ADAPTER, behs, params=dict(catalog=cat, style=style),
                        nontrivial=nontrivial)
